@@ -33,12 +33,14 @@ case("c01-mark-in-claim-txn", "C01", "mutant", [(H + "start_stage/handler.py", "
 """, """                txn.store_stage(stage, expected_phase=claim_expected_phase)
                 txn.mark_message_processed(message_id=message.message_id, handler_type="StartStage", execution_id=message.execution_id)
 """)], "C01.R1.SEQ1")
-case("c01-autocommit-inside-txn", "C01", "mutant", [(H + "skip_stage.py", """                txn.store_stage(stage)
+case("c01-autocommit-inside-txn", "C01", "mutant", [(H + "skip_stage.py", """            with self.repository.transaction(self.queue) as txn:
+                txn.store_stage(stage)
 
-                # Message deduplication""", """                txn.store_stage(stage)
+                # Recorded inside the transaction""", """            with self.repository.transaction(self.queue) as txn:
+                txn.store_stage(stage)
                 self.repository.store_stage(stage)
 
-                # Message deduplication""")], "C01.R2")
+                # Recorded inside the transaction""")], "C01.R2")
 case("c01-commit-in-atomic-push", "C01", "mutant", [("src/stabilize/persistence/sqlite/transaction.py", """                "max_attempts": getattr(message, "max_attempts", 10),
             },
         )
@@ -63,45 +65,46 @@ case("c01-complete-stage-mark-deleted-afterstages", "C01", "mutant", [(H + "comp
                                 )
                             for s in not_started:""", """                            txn.store_stage(stage)
                             for s in not_started:""")], "C01.R1.SEQ5")
-case("c01-refactor-txn-body-helper", "C01", "refactor", [(H + "cancel_stage.py", """            with self.repository.transaction(self.queue) as txn:
-                txn.store_stage(stage)
-
-                # Message deduplication
+case("c01-refactor-txn-body-helper", "C01", "refactor", [(H + "cancel_stage.py", """                # Message deduplication
                 if message.message_id:
                     txn.mark_message_processed(
                         message_id=message.message_id,
                         handler_type="CancelStage",
                         execution_id=message.execution_id,
                     )
-""", """            def _body(t):
-                t.store_stage(stage)
-                if message.message_id:
-                    t.mark_message_processed(
-                        message_id=message.message_id,
-                        handler_type="CancelStage",
-                        execution_id=message.execution_id,
-                    )
 
-            with self.repository.transaction(self.queue) as txn:
-                _body(txn)
-""")])
-case("c01-refactor-reorder-in-txn", "C01", "refactor", [(H + "skip_stage.py", """                txn.store_stage(stage)
+            if self.event_recorder:""", """                def _mark(t):
+                    if message.message_id:
+                        t.mark_message_processed(
+                            message_id=message.message_id,
+                            handler_type="CancelStage",
+                            execution_id=message.execution_id,
+                        )
 
-                # Message deduplication
+                _mark(txn)
+
+            if self.event_recorder:""")])
+case("c01-refactor-reorder-in-txn", "C01", "refactor", [(H + "skip_stage.py", """            with self.repository.transaction(self.queue) as txn:
+                txn.store_stage(stage)
+
+                # Recorded inside the transaction""", """            with self.repository.transaction(self.queue) as txn:
                 if message.message_id:
-                    txn.mark_message_processed(
-                        message_id=message.message_id,
-                        handler_type="SkipStage",
-                        execution_id=message.execution_id,
-                    )
-""", """                if message.message_id:
                     txn.mark_message_processed(
                         message_id=message.message_id,
                         handler_type="SkipStage",
                         execution_id=message.execution_id,
                     )
                 txn.store_stage(stage)
-""")])
+
+                # Recorded inside the transaction"""), (H + "skip_stage.py", """                # Message deduplication
+                if message.message_id:
+                    txn.mark_message_processed(
+                        message_id=message.message_id,
+                        handler_type="SkipStage",
+                        execution_id=message.execution_id,
+                    )
+
+                if downstream_stages:""", """                if downstream_stages:""")])
 case("c01-refactor-alias-queue", "C01", "refactor", [(H + "complete_workflow.py", """        self.queue.push(new_message, self.retry_delay)
         return None""", """        q = self.queue
         q.push(new_message, self.retry_delay)
@@ -884,3 +887,180 @@ _SEED_DIR = _os.path.join(_os.path.dirname(_os.path.dirname(_os.path.abspath(__f
 for _d in sorted(_os.listdir(_SEED_DIR)) if _os.path.isdir(_SEED_DIR) else []:
     if _os.path.exists(_os.path.join(_SEED_DIR, _d, "patch.diff")):
         case(f"seed-{_d}", _d.split("-")[0].upper(), "mutant", [], None, patch=f"seeded/{_d}/patch.diff")
+
+# ---------------------------------------------------------------- C16
+Q_ = "src/stabilize/persistence/sqlite/queries.py"
+PL_ = H + "start_stage/planner.py"
+case("c16-direct-requisites-only", "C16", "mutant", [(Q_, """            if req not in visited:
+                visited.add(req)
+                ancestors.add(req)
+                queue.append(req)
+""", """            if req not in visited:
+                visited.add(req)
+                ancestors.add(req)
+""")], "C16.R1")
+case("c16-self-included", "C16", "mutant", [(Q_, """    ancestors = set()
+    queue = [stage_ref_id]""", """    ancestors = {stage_ref_id}
+    queue = [stage_ref_id]""")], "C16.R1")
+case("c16-edge-direction-reversed", "C16", "mutant", [(Q_, """            if req in ancestors:
+                graph[req].append(aid)
+                in_degree[aid] += 1
+""", """            if req in ancestors:
+                graph[aid].append(req)
+                in_degree[req] += 1
+""")], "C16.R2")
+case("c16-first-writer-wins", "C16", "mutant", [(Q_, """            else:
+                merged_result[key] = value
+
+    return merged_result""", """            elif key not in merged_result:
+                merged_result[key] = value
+
+    return merged_result""")], "C16.R2")
+case("c16-ancestors-override-own", "C16", "mutant", [(PL_, """            else:
+                merged[key] = value
+
+""", """            elif key not in merged:
+                merged[key] = value
+
+""")], "C16.R2")
+case("c16-reducers-after-own", "C16", "mutant", [(PL_, """            if key in reducers:
+                # A reducer produced the authoritative value for this key;
+                # do not let the join stage's own context override it.
+                continue
+""", "")], "C16.R3")
+case("c16-outputs-kept-on-rearm", "C16", "mutant", [(H + "jump_to_stage/reset.py", """    stage.outputs = {}
+    # Re-arm join/split tracking""", """    # Re-arm join/split tracking""")], "C16.R4")
+case("c16-sum-drops-first", "C16", "mutant", [("src/stabilize/reducers.py", """    total: Any = 0
+    for v in values:
+        if v is not None:
+            total = total + v
+    return total""", """    total: Any = 0
+    for v in values[1:]:
+        if v is not None:
+            total = total + v
+    return total + (values[0] or 0)""")], "C16.R5")
+case("c16-max-of-last-two", "C16", "mutant", [("src/stabilize/reducers.py", """    "max": lambda values: max(v for v in values if v is not None),""", """    "max": lambda values: max(v for v in values[-2:] if v is not None),""")], "C16.R5")
+case("c16-refactor-rename-merged", "C16", "refactor", [(Q_, """    merged_result: dict[str, Any] = {}
+    for aid in sorted_ancestors:
+        outputs = nodes[aid]["outputs"]
+        for key, value in outputs.items():
+            if key in merged_result and isinstance(merged_result[key], list) and isinstance(value, list):
+                # Concatenate lists
+                existing = merged_result[key]
+                for item in value:
+                    if item not in existing:
+                        existing.append(item)
+            else:
+                merged_result[key] = value
+
+    return merged_result""", """    acc: dict[str, Any] = {}
+    for aid in sorted_ancestors:
+        outs = nodes[aid]["outputs"]
+        for k, val in outs.items():
+            if k in acc and isinstance(acc[k], list) and isinstance(val, list):
+                have = acc[k]
+                for it in val:
+                    if it not in have:
+                        have.append(it)
+            else:
+                acc[k] = val
+
+    return acc""")])
+
+# ---------------------------------------------------------------- C03
+RD_ = "src/stabilize/dag/readiness.py"
+SH_ = H + "start_stage/handler.py"
+case("c03-and-ready-when-no-active", "C03", "mutant", [(RD_, """    if not not_complete_ids:
+        return ReadinessResult(
+            phase=PredicatePhase.READY,
+            reason="All upstream stages complete",
+        )
+""", """    if not active_ids:
+        return ReadinessResult(
+            phase=PredicatePhase.READY,
+            reason="All upstream stages complete",
+        )
+""")], "C03.R1")
+case("c03-and-incomplete-set-shrunk", "C03", "mutant", [(RD_, """        if upstream.status not in CONTINUABLE_STATUSES:
+            not_complete_ids.append(upstream.id)
+            if upstream.status in ACTIVE_STATUSES:
+                active_ids.append(upstream.id)
+
+    if not not_complete_ids:
+        return ReadinessResult(
+            phase=PredicatePhase.READY,
+            reason="All upstream stages complete",""", """        if not upstream.status.is_complete:
+            not_complete_ids.append(upstream.id)
+            if upstream.status in ACTIVE_STATUSES:
+                active_ids.append(upstream.id)
+
+    if not not_complete_ids:
+        return ReadinessResult(
+            phase=PredicatePhase.READY,
+            reason="All upstream stages complete",""")], "C03.R1")
+case("c03-or-ignores-activation", "C03", "mutant", [(RD_, """    relevant_upstreams = [u for u in upstream_stages if u is not None and u.ref_id in activated_set]""", """    relevant_upstreams = [u for u in upstream_stages if u is not None and u.ref_id not in activated_set]""")], "C03.R2")
+case("c03-discriminator-fires-on-complete", "C03", "mutant", [(RD_, """        if upstream.status in CONTINUABLE_STATUSES:
+            return ReadinessResult(
+                phase=PredicatePhase.READY,
+                reason=f"Discriminator: first upstream {upstream.id} completed",""", """        if upstream.status.is_complete:
+            return ReadinessResult(
+                phase=PredicatePhase.READY,
+                reason=f"Discriminator: first upstream {upstream.id} completed",""")], "C03.R3")
+case("c03-discriminator-refires", "C03", "mutant", [(RD_, """    if join_fired:
+        # Already fired - check if all upstreams are done (reset condition)""", """    if join_fired and stage.context.get("_join_blocking"):
+        # Already fired - check if all upstreams are done (reset condition)""")], "C03.R3")
+case("c03-nofm-counts-halted", "C03", "mutant", [(RD_, """        if upstream.status in CONTINUABLE_STATUSES:
+            completed_ids.append(upstream.id)
+        elif upstream.status in HALT_STATUSES:
+            failed_ids.append(upstream.id)""", """        if upstream.status.is_complete:
+            completed_ids.append(upstream.id)
+        elif upstream.status in HALT_STATUSES:
+            failed_ids.append(upstream.id)""")], "C03.R4")
+case("c03-nofm-threshold-off-by-one", "C03", "mutant", [(RD_, """    if len(completed_ids) >= threshold:""", """    if len(completed_ids) >= threshold - 1:""")], "C03.R4")
+case("c03-dispatch-discriminator-as-multimerge", "C03", "mutant", [(RD_, """    elif join_type == JoinType.DISCRIMINATOR:
+        return _evaluate_discriminator(stage, upstream_stages)""", """    elif join_type == JoinType.DISCRIMINATOR:
+        return _evaluate_multi_merge(stage, upstream_stages)""")], "C03.R5")
+case("c03-start-when-not-skip", "C03", "mutant", [(SH_, """                if readiness.phase == PredicatePhase.READY:
+                    logger.debug(""", """                if readiness.phase != PredicatePhase.SKIP:
+                    logger.debug(""")], "C03.R6")
+case("c03-bypass-not-consumed", "C03", "mutant", [(SH_, """                if jump_bypass:
+                    # Clear the bypass flag so it doesn't persist
+                    del stage.context["_jump_bypass"]
+""", """                if jump_bypass:
+                    pass
+""")], "C03.R6")
+case("c03-refactor-rename-collector", "C03", "refactor", [(RD_, """    active_ids: list[str] = []
+    not_complete_ids: list[str] = []
+
+    for upstream in upstream_stages:
+        if upstream is None:
+            continue
+        if upstream.status not in CONTINUABLE_STATUSES:
+            not_complete_ids.append(upstream.id)
+            if upstream.status in ACTIVE_STATUSES:
+                active_ids.append(upstream.id)
+
+    if not not_complete_ids:
+        return ReadinessResult(
+            phase=PredicatePhase.READY,
+            reason="All upstream stages complete",""", """    active_ids: list[str] = []
+    pending: list[str] = []
+
+    for up in upstream_stages:
+        if up is None:
+            continue
+        if up.status not in CONTINUABLE_STATUSES:
+            pending.append(up.id)
+            if up.status in ACTIVE_STATUSES:
+                active_ids.append(up.id)
+    not_complete_ids = pending
+
+    if not pending:
+        return ReadinessResult(
+            phase=PredicatePhase.READY,
+            reason="All upstream stages complete",""")])
+case("c16-inherited-keys-overlaid", "C16", "mutant", [(PL_, """            if key in inherited or key == "_inherited_keys":
+                continue
+""", """            if key == "_inherited_keys":
+                continue
+""")], "C16.R4")
